@@ -168,7 +168,11 @@ def tokenize(src: str):
             j = i + 1
             while j < n and _id_cont(src[j]):
                 j += 1
-            toks.append(('id', unicodedata.normalize('NFC', src[i:j])))
+            word = unicodedata.normalize('NFC', src[i:j])
+            if word in ('not', 'and', 'or'):
+                toks.append(('op', {'not': '!', 'and': '&&', 'or': '||'}[word]))
+            else:
+                toks.append(('id', word))
             i = j
             continue
         for op in _OPS:
